@@ -1211,3 +1211,36 @@ Proof.
   split; [vm_compute; reflexivity|]. split; [vm_compute; reflexivity|].
   eexists _, _. split; [vm_compute; reflexivity|]. vm_compute. repeat split; reflexivity.
 Qed.
+
+(* ---- part 7: the migration window --------------------------------------------------------------
+   no rotation while Moving: whatever idle exchanges run (and whatever their re-key draws) between the
+   hand-off and its confirmation, the old client is unchanged, so the session the new process loads has
+   the identity and the key material the old client (hence the server) holds at confirmation *)
+Lemma exchanges_moving c h : exchanges true c h = c.
+Proof.
+  unfold exchanges. induction h as [|x h IH]; [reflexivity|]. cbn [fold_left].
+  unfold idle_exchange at 2. cbn [negb]. rewrite andb_false_r. exact IH.
+Qed.
+Theorem window_keys_current c pre win new0 :
+  wf infoMigrate (exchanges false c pre) = true ->
+  exists d c', window_exchange c pre win new0 = Ok (d, c') /\
+    c' = exchanges false c pre /\ s_id d = s_id c' /\ s_keys d = s_keys c' /\
+    s_jitter d = s_jitter c' /\ s_sleep d = s_sleep c'.
+Proof.
+  intros Hw. set (c1 := exchanges false c pre) in *.
+  pose proof (devinfo_roundtrip_flat infoMigrate c1 new0 Hw []) as Hr. rewrite app_nil_r in Hr.
+  exists (absorb infoMigrate c1 new0), c1. split.
+  - unfold window_exchange. fold c1. rewrite Hr. cbn [bind fst]. rewrite exchanges_moving. reflexivity.
+  - destruct (absorbed_identity infoMigrate c1 new0) as (_ & Hi & _ & _). destruct (Hi eq_refl) as (Hi1 & Hi2).
+    destruct (absorbed_settings infoMigrate c1 new0) as (A & B & _); [discriminate|].
+    repeat split; assumption.
+Qed.
+(* the guard is what makes it true: WITHOUT it (exchanges false inside the window) a rotation leaves the
+   old client with other key material than the hand-off carries *)
+Lemma window_without_guard_refuted :
+  exists c x, s_client c = true /\
+    s_keys (exchanges false c [x]) <> s_keys c /\ s_keys (exchanges true c [x]) = s_keys c.
+Proof.
+  exists ex_session, (true, mkKeys [1] [2] [3]). split; [reflexivity|]. split; [|reflexivity].
+  vm_compute. discriminate.
+Qed.
